@@ -58,6 +58,11 @@ CLAIMED = {
             "refine=True) against a process-pool model (tasks on deep copies, every completion order of 3-4 tasks, "
             "num_processes in {1,2,3,'auto'}) with locate_droplets / least_squares as uninterpreted functions of "
             "all their arguments; float replays use the real ProcessPoolExecutor", "§4 C15"),
+    "C16": ("bounded symbolic execution of get_structure_factor on periodic Cartesian grids with axis lengths in "
+            "{1,2,3,4,6} (1D 2-6, 2D up to 4x2 / 4x3, 3D 2x2x2 thorough) with symbolic field values and scale; FFT = "
+            "DFT definition with exact roots of unity, smoother = its definition with exp abstracted; z3 decides per "
+            "mode non-negativity, Parseval, scaling / translation / reflection / axis-permutation invariance, wave "
+            "numbers = Fourier wave numbers, stretch scaling, requested wave numbers returned, (0,1) prepended", "§4 C16"),
     "C18": ("bounded symbolic execution of locate_droplets threshold dispatch / binarisation / size filters and of "
             "threshold_otsu on symbolic field values (Cartesian 1D 4 cells, 2D 2x2, polar 3; Otsu on 4-5 values with "
             "2-4 bins, histogram by its definition); z3 decides binary image = field > documented threshold, Otsu = "
